@@ -294,7 +294,10 @@ def rule_skip_only_null_sp(ctx):
                             lits["regs"] = v
                         else:
                             z = [x for x in (core(a[2]), core(a[3])) if is_const(x) and x[1] == 0]
-                            lits["rsp0"] = (a[1], v, bool(z))
+                            # the register is compared at full width: no narrowing cast on the way (rsp as u32 == 0 also holds for 0x7000_0000_0000)
+                            from engine.origin import INT_BITS
+                            narrowed = any(isinstance(q, tuple) and q and q[0] == "cast" and INT_BITS.get(q[3], 64) < INT_BITS.get(q[2], 64) for side in (a[2], a[3]) for q in walk(side))
+                            lits["rsp0"] = (a[1], v, bool(z) and not narrowed)
                     if lits.get("regs") == 0 and lits.get("rsp0") == ("Eq", 1, True):
                         forms.add("rsp==0")
                     elif lits.get("regs") not in (0, None) and "rsp0" not in lits:
